@@ -67,7 +67,40 @@ func checkProgSet(set TSet, name string, ctx Ctx, o SPrint) error {
 }
 
 func checkC09(c ProgCase) error {
-	return checkProgSet(TSet{{Name: "main", Body: c.Body}}, "main", c.Ctx, SPrint{})
+	if err := checkProgSet(TSet{{Name: "main", Body: c.Body}}, "main", c.Ctx, SPrint{}); err != nil {
+		return err
+	}
+	return checkC09Globals(c)
+}
+
+// checkC09Globals: every second context name is handed to the engine as a global (AddGlobal)
+// instead of through the context map. A global reads like a context variable, and a `set` or a
+// loop variable of the same name hides it from then on, whatever value it assigns (also null).
+func checkC09Globals(c ProgCase) error {
+	set := TSet{{Name: "main", Body: c.Body}}
+	want := runModel(set, "main", c.Ctx, 0)
+	if want.domain || want.failed {
+		return nil
+	}
+	srcs := set.Sources(SPrint{})
+	e := newEngine(srcs)
+	NewSpies().Install(e)
+	data := zooCtx(c.Ctx, 0)
+	names := append([]string{}, c.Ctx.Names...)
+	sortStrings(names)
+	var globals []string
+	for i, n := range names {
+		if i%2 == 0 {
+			e.AddGlobal(n, data[n])
+			delete(data, n)
+			globals = append(globals, n)
+		}
+	}
+	r := render(e, "main", data)
+	if r.Failed() || r.Out != want.out {
+		return fmt.Errorf("with %v provided as engine globals instead of context entries: engine %v, model %s; templates:%s", globals, r, q(want.out), showSources(srcs))
+	}
+	return nil
 }
 
 type progStats struct {
@@ -124,7 +157,7 @@ func progClasses(body []*S) (bool, []string) {
 	return nt, cl
 }
 
-const c09Rule = "random programs of text/print/if-elseif-else/for-else/set nested to depth<=4 over lists (0..12 elements, thorough 0..40; also as typed []int / []string slices), ranges with positive/negative steps, strings incl. multi-byte, one-entry maps, nested lists, null/undefined; conditions of every value type; set of empty values (null, undefined, '', 0) over names that already hold a value; non-trivial = nested loops, or a loop body reading a loop counter, or an elseif/else chain, or a set inside a loop; distinct by (context, program)"
+const c09Rule = "random programs of text/print/if-elseif-else/for-else/set nested to depth<=4 over lists (0..12 elements, thorough 0..40; also as typed []int / []string slices), ranges with positive/negative steps, strings incl. multi-byte, one-entry maps, nested lists, null/undefined; conditions of every value type; empty bodies; every program also rendered with half of its context provided as engine globals; set of empty values (null, undefined, '', 0) over names that already hold a value; non-trivial = nested loops, or a loop body reading a loop counter, or an elseif/else chain, or a set inside a loop; distinct by (context, program)"
 
 func TestC09Flow(t *testing.T) {
 	r := NewRec(t, "C09", c09Rule)
